@@ -1,9 +1,13 @@
 #!/usr/bin/env python3
-"""rep.py FILE <<< JSON list of [old,new] pairs; each old must match exactly once."""
-import json, sys
+"""rep.py FILE <<< JSON list of [old,new] pairs; each old must match exactly once.
+Runs of spaces/tabs inside a line of `old` match any run of spaces/tabs (gofmt realigns)."""
+import json, re, sys
 p = sys.argv[1]
 s = open(p).read()
 for old, new in json.load(sys.stdin):
-    assert s.count(old) == 1, "%s: %d matches for %r" % (p, s.count(old), old[:60])
-    s = s.replace(old, new)
+    parts = re.split(r'([ \t]+)', old)
+    rx = ''.join('[ \\t]+' if re.fullmatch(r'[ \t]+', x) and i > 0 and not parts[i-1].endswith('\n') and parts[i-1] != '' else re.escape(x) for i, x in enumerate(parts))
+    m = list(re.finditer(rx, s))
+    assert len(m) == 1, "%s: %d matches for %r" % (p, len(m), old[:60])
+    s = s[:m[0].start()] + new + s[m[0].end():]
 open(p, 'w').write(s)
